@@ -79,8 +79,8 @@ theorem pre_node_or_ref : ∀ (v : PyVal) (p : Pre), pre v = .ok p → (∃ i ps
   | .ty t, p, h => by simp only [pre, Except.ok.injEq] at h; exact .inl ⟨_, _, h.symm⟩
   | .seq i k xs, p, h => by obtain ⟨ps, _, rfl⟩ := pre_seq_inv h; exact .inl ⟨_, _, rfl⟩
   | .set i f xs, p, h => by obtain ⟨ps, _, rfl⟩ := pre_set_inv h; exact .inl ⟨_, _, rfl⟩
-  | .dict i xs, p, h => by obtain ⟨ps, s, _, _, rfl⟩ := pre_dict_inv h; exact .inl ⟨_, _, rfl⟩
-  | .obj i c xs, p, h => by obtain ⟨ps, s, _, _, rfl⟩ := pre_obj_inv h; exact .inl ⟨_, _, rfl⟩
+  | .dict i xs, p, h => by obtain ⟨ps, _, rfl⟩ := pre_dict_inv h; exact .inl ⟨_, _, rfl⟩
+  | .obj i c xs, p, h => by obtain ⟨ps, _, rfl⟩ := pre_obj_inv h; exact .inl ⟨_, _, rfl⟩
   | .func i b code c g, p, h => by obtain ⟨cs, _, rfl⟩ := pre_func_inv h; exact .inl ⟨_, _, rfl⟩
   | .ref i, p, h => by simp only [pre, Except.ok.injEq] at h; exact .inr ⟨i, h.symm⟩
   | .tyFields i fs os, p, h => by
